@@ -36,6 +36,12 @@ pub fn ipc_probe_field(code: i64, i: usize) -> Field {
 
 fn probe_local(op: &str, a: &Args) -> Option<Args> {
     match op {
+        "c08.dict_read" => {
+            let bytes = to_u8s(&a[0]); let expected = to_i64s(&a[1]); let ty = to_i64(&a[2]);
+            let n = expected.len();
+            let r = guarded(move || dict_read(&bytes, &expected, ty));
+            Some(match r { Ok(Ok(code)) => outcome_args(code, n, ""), Ok(Err(())) => outcome_args(ERR, 0, ""), Err((code, loc)) => outcome_args(code, 0, &loc) })
+        }
         "c08.thrift_meta" => {
             let bytes = to_u8s(&a[0]);
             let r = guarded(move || {
